@@ -9,7 +9,7 @@ from ..values import Num, Const, Tup, Term, Obj, P, Val, Kw, veq, walk_vals, arr
 from ..model import AnalysisError
 from ..symeval import Evaluator
 from ..weaver_model import WeaverModel
-from .common import show, REPO_RESULT_KIND, S, ModSpec, same, arr_term, targ, SAU
+from .common import show, REPO_RESULT_KIND, S, ModSpec, same, arr_term, targ, SAU, inline_except, SCANS
 from .c08 import model, last_stores, check_paired
 from . import c08
 
@@ -30,11 +30,11 @@ def check_truncate(ctx):
     xl, xr = S('x_left'), S('x_right')
     for lr in (False, True):
         for rr in (False, True):
-            ev = Evaluator(ctx.prog, inline=lambda f: False, opaque_kind=REPO_RESULT_KIND)
+            ev = Evaluator(ctx.prog, inline=inline_except(*SCANS), opaque_kind=REPO_RESULT_KIND)
             res, st = ev.run_function(fi, args={'x': x, 'y': y, 'x_left': xl, 'x_right': xr, 'x_left_as_ratio': Const(lr), 'x_right_as_ratio': Const(rr)})
             if ev.issues:
                 raise AnalysisError(f"C11.1: truncate not canonicalisable: {ev.issues[:3]}")
-            sp = ModSpec(ctx.prog, 'traffic_weaver.process', {'x': x, 'y': y, 'x_left': xl, 'x_right': xr})
+            sp = ModSpec(ctx.prog, 'traffic_weaver.process', {'x': x, 'y': y, 'x_left': xl, 'x_right': xr}, inline=inline_except(*SCANS))
             sp.exec(('x_left = x_left * (x[-1] - x[0]) + x[0]\n' if lr else '') + ('x_right = x_right * (x[-1] - x[0]) + x[0]\n' if rr else ''))
             sp.exec('l = find_closest_lower_equal_element_indices_to_values(x, [x_left], fill_not_valid=True)[0]\n'
                     'r = find_closest_higher_equal_element_indices_to_values(x, [x_right], fill_not_valid=True)[0] + 1\n')
